@@ -46,6 +46,7 @@ type parseResult struct {
 	pan    interface{}
 	stack  string
 	hung   bool
+	slow   bool // returned, but late and on a starved machine
 }
 
 func parseWatchdog(filename string, input []byte, limit time.Duration) parseResult {
@@ -62,11 +63,23 @@ func parseWatchdog(filename string, input []byte, limit time.Duration) parseResu
 		}()
 		r.blocks, r.err = casketfile.Parse(filename, strings.NewReader(string(input)), nil)
 	}()
+	beats, at := vt.Beats(), time.Now()
 	select {
 	case r := <-ch:
 		return r
 	case <-time.After(limit):
-		return parseResult{hung: true}
+		if !vt.Starved(beats, at) {
+			return parseResult{hung: true} // the machine was responsive all along: the parser is stuck
+		}
+		// the whole process was short of CPU: a long second chance; a case that
+		// then returns is discarded, not judged
+		select {
+		case r := <-ch:
+			r.slow = true
+			return r
+		case <-time.After(6 * limit):
+			return parseResult{hung: true}
+		}
 	}
 }
 
@@ -127,6 +140,9 @@ func checkRoundTrip(c *Case) (walks map[string][]walkEv, err error) {
 	defer os.RemoveAll(dir)
 	mainPath := filepath.Join(dir, c.Main)
 	res := parseWatchdog(mainPath, []byte(c.Files[c.Main]), 10*time.Second)
+	if res.slow {
+		return nil, fmt.Errorf("HARNESS: Parse needed more than 10 s on a starved machine: no verdict")
+	}
 	if res.hung {
 		return nil, fmt.Errorf("HANG: Parse did not return within 10s")
 	}
@@ -309,18 +325,21 @@ func TestRoundTrip(t *testing.T) {
 
 // files that exist next to every generated input; imports can hit them
 var sideFiles = map[string]string{
-	"a.conf":       "gzip\nlog / stdout\n",
-	"b.conf":       "import a.conf\nroot /x\n",
-	"blk.conf":     "host1 {\n  gzip\n}\n",
-	"inc/one.conf": "ext .html\n",
-	"inc/two.conf": "header / X y\nimport ../a.conf\n",
-	"cyc1.conf":    "import cyc2.conf\n",
-	"cyc2.conf":    "errors\nimport cyc1.conf\n",
-	"selfi.conf":   "mime .x y\nimport selfi.conf\n",
-	"snipcyc.conf": "(s) {\n import s\n}\n",
-	"brace.conf":   "}\n",
-	"open.conf":    "proxy / x {\n",
-	"quote.conf":   "root \"unterminated\n",
+	"a.conf":        "gzip\nlog / stdout\n",
+	"b.conf":        "import a.conf\nroot /x\n",
+	"blk.conf":      "host1 {\n  gzip\n}\n",
+	"inc/one.conf":  "ext .html\n",
+	"inc/two.conf":  "header / X y\nimport ../a.conf\n",
+	"cyc1.conf":     "import cyc2.conf\n",
+	"cyc2.conf":     "errors\nimport cyc1.conf\n",
+	"selfi.conf":    "mime .x y\nimport selfi.conf\n",
+	"snipcyc.conf":  "(s) {\n import s\n}\n",
+	"snip2.conf":    "(a) {\n import b\n}\n(b) {\n import a\n}\n",
+	"snip3.conf":    "(p) {\n gzip\n import q\n}\n(q) {\n import r\n}\n(r) {\n header / X y\n import p\n}\n",
+	"snipfile.conf": "(m) {\n import cyc1.conf\n}\n",
+	"brace.conf":    "}\n",
+	"open.conf":     "proxy / x {\n",
+	"quote.conf":    "root \"unterminated\n",
 }
 
 type bytesCase struct {
@@ -330,7 +349,7 @@ type bytesCase struct {
 var soup = []string{
 	"{", "}", "\"", "\\", "#", "import", "import ", "(s)", "(s) {", "\n", "\n", " ", "\t", "\r\n", ",", ", ",
 	"host", "example.com", ":80", "gzip", "root", "/", "a", "b", "{$VA}", "{$", "{%", "%}", "{$}", "{%VB%}", "}", "{", "{$VE}", "{%VF%}", "{$VH}", "{$VI}",
-	"Casketfile", "a.conf", "b.conf", "blk.conf", "inc/*.conf", "inc/*", "cyc1.conf", "selfi.conf", "snipcyc.conf", "brace.conf",
+	"Casketfile", "a.conf", "b.conf", "blk.conf", "inc/*.conf", "inc/*", "cyc1.conf", "selfi.conf", "snipcyc.conf", "snip2.conf", "snip3.conf", "snipfile.conf", "brace.conf", "import a", "import b", "import p", "import m", "(a) {", "(b) {",
 	"open.conf", "quote.conf", "inc", "missing.conf", "*", "*.conf", "?.conf", "[a]*.conf", "s", "\\\"", "\"\"", "\xef\xbb\xbf", "\x00", "\xff",
 	"import s", "import Casketfile", "import a.conf", "import cyc1.conf", "import inc/*.conf",
 }
@@ -374,6 +393,9 @@ func runBytes(c *bytesCase, hard func(msg string)) (bool, error) {
 	defer os.RemoveAll(dir)
 	mainPath := filepath.Join(dir, "Casketfile")
 	res := parseWatchdog(mainPath, []byte(c.Text), 10*time.Second)
+	if res.slow {
+		return true, fmt.Errorf("HARNESS: Parse needed more than 10 s on a starved machine: no verdict")
+	}
 	if res.hung {
 		hard("HANG: casketfile.Parse did not return within 10s (parser goroutine still running)")
 		return true, fmt.Errorf("HANG")
@@ -455,6 +477,8 @@ func TestBytes(t *testing.T) {
 var constants = []string{
 	"import Casketfile", "host\nimport Casketfile\n", "host {\n import Casketfile\n}\n", "import selfi.conf", "host {\nimport cyc1.conf\n}",
 	"(s) {\n import s\n}\nhost {\n import s\n}\n", "import snipcyc.conf\nhost {\n import s\n}",
+	"(a) {\n import b\n}\n(b) {\n import a\n}\nhost {\n import a\n}\n", "(a) {\n import b\n}\n(b) {\n import c\n}\n(c) {\n import a\n}\nhost {\n import b\n}\n", "import snip2.conf\nhost {\n import a\n}\n", "import snip3.conf\nhost {\n import q\n}\n", "import snipfile.conf\nhost {\n import m\n}\n",
+	"(a) {\n gzip\n header / X y\n}\nhost {\n import a\n import a\n}\n",
 	"\"", "\"\\", "\\\"", "{", "}", "{ }", "host {", "host }", "host {\n}\n}", "host {\n dir {\n}", "a, ", "a,\n", ",", "import", "import \"\"", "import a b",
 	"\xef\xbb\xbf", "\xef\xbb\xbfhost", "host\r\n{\r\n}\r\n", "{$", "{%", "{$}", "{$VA", "host {\n root {$VA}\n}", "host {\n root {$VE}\n}", "host {\n root {%VF%}\n}", "{$VH}.test {\n root {$VI}\n}", "{$VE}", "host \"\n\n\" {\n}", "#", "# only comment\n",
 	"(s)", "(s) {", "(s) {\n}\n(s) {\n}\n", "import *", "import inc/*", "import inc", "import [a]*.conf", "import **", "host {\n dir { {\n } }\n}",
